@@ -119,6 +119,13 @@ Definition batch_rules_of (name : string) : rules :=
   match assoc name batch_entry_rules with Some R => R | None => [] end.
 Definition subrecords_of (name : string) : list string :=
   match assoc name entry_subrecords with Some l => l | None => [] end.
+(* the condition on which the entry loop leaves the function (CTrue if the table has no entry: nothing is inspected) *)
+Definition loop_exit_of (name : string) : cond :=
+  match assoc name batch_loop_exits with Some X => X | None => CTrue end.
+(* isAddendaSequence accepts the entries es (as far as the regenerated rules go) *)
+Definition batch_entries_valid (name : string) (es : list recval) : bool :=
+  entries_validb (batch_rules_of name) (loop_exit_of name) es.
+Definition batch_inspected (name : string) (es : list recval) : list recval := inspected (loop_exit_of name) es.
 
 (* Batch.isAddendaSequence: whichever optional sub-record an entry carries, the rule
    `entry.AddendaRecordIndicator != 1` guarded by its presence is there *)
@@ -130,22 +137,59 @@ Proof. vm_compute. reflexivity. Qed.
 Lemma std_subrecords_nonempty : subrecords_of "EntryDetail" <> [].
 Proof. vm_compute. discriminate. Qed.
 
-(* IATBatch.isAddendaSequence: unconditional *)
+(* Batch.isAddendaSequence never leaves its loop early: every entry is inspected *)
+Lemma std_loop_no_exit : loop_exit_of "EntryDetail" = CFalse.
+Proof. vm_compute. reflexivity. Qed.
+
+Lemma std_inspected es : batch_inspected "EntryDetail" es = es.
+Proof.
+  unfold batch_inspected. rewrite std_loop_no_exit. apply inspected_all. intros e _. apply may_exit_false.
+Qed.
+
+(* IATBatch.isAddendaSequence: unconditional rule, but the loop returns nil on the first correction entry
+   (`if entry.isCorrection() { return nil }`): the entries after it are not inspected *)
 Lemma iat_indicator_bound : int_bound (batch_rules_of "IATEntryDetail") "AddendaRecordIndicator" 1 = true.
 Proof. vm_compute. reflexivity. Qed.
 
-Theorem C02_indicator_with_addenda r g : In g (subrecords_of "EntryDetail") ->
-  rec_validb (batch_rules_of "EntryDetail") r = true -> (0 < geti r g)%Z ->
+Lemma iat_loop_exit :
+  loop_exit_of "IATEntryDetail" = CIntCmp Cne (IField "#Addenda98") (IConst 0%Z).
+Proof. vm_compute. reflexivity. Qed.
+
+Theorem C02_indicator_with_addenda es r g : In g (subrecords_of "EntryDetail") ->
+  batch_entries_valid "EntryDetail" es = true -> In r es -> (0 < geti r g)%Z ->
   geti r "AddendaRecordIndicator" = 1%Z.
 Proof.
-  intros Hg Hv Hp. pose proof std_indicator_guarded as H. rewrite forallb_forall in H.
-  exact (guarded_bound_sound _ g "AddendaRecordIndicator" 1%Z r (H g Hg) Hv Hp).
+  intros Hg Hv Hin Hp. pose proof std_indicator_guarded as H. rewrite forallb_forall in H.
+  apply (guarded_bound_sound _ g "AddendaRecordIndicator" 1%Z r (H g Hg)); [|exact Hp].
+  apply (entries_valid_in _ _ es r Hv). change (In r (batch_inspected "EntryDetail" es)).
+  now rewrite std_inspected.
 Qed.
 
-Theorem C02_indicator_iat r :
-  rec_validb (batch_rules_of "IATEntryDetail") r = true ->
+Theorem C02_indicator_iat es r :
+  batch_entries_valid "IATEntryDetail" es = true -> In r (batch_inspected "IATEntryDetail" es) ->
   length (itoa (geti r "AddendaRecordIndicator")) = 1%nat.
-Proof. intros Hv. exact (int_bound_sound _ r "AddendaRecordIndicator" 1 iat_indicator_bound Hv). Qed.
+Proof.
+  intros Hv Hin. apply (int_bound_sound _ r "AddendaRecordIndicator" 1 iat_indicator_bound).
+  exact (entries_valid_in _ _ es r Hv Hin).
+Qed.
+
+(* without correction entries every IAT entry is inspected *)
+Lemma iat_inspected_all es : (forall e, In e es -> geti e "#Addenda98" = 0%Z) -> batch_inspected "IATEntryDetail" es = es.
+Proof.
+  intros H. unfold batch_inspected. rewrite iat_loop_exit. apply inspected_all. intros e He.
+  unfold may_exit. cbn [eval evali cmpz]. rewrite (H e He). reflexivity.
+Qed.
+
+(* the entries after the first correction entry really are unchecked: a batch of two correction
+   entries, the second with indicator 10, is accepted by the regenerated isAddendaSequence rules *)
+Lemma iat_later_correction_refuted :
+  let c1 := [("AddendaRecordIndicator", VI 1); ("#Addenda98", VI 1)] in
+  let c2 := [("AddendaRecordIndicator", VI 10); ("#Addenda98", VI 1)] in
+  batch_entries_valid "IATEntryDetail" [c1; c2] = true /\
+  batch_inspected "IATEntryDetail" [c1; c2] = [c1] /\
+  length (itoa (geti c2 "AddendaRecordIndicator")) = 2%nat /\
+  batch_entries_valid "IATEntryDetail" [c2; c1] = false.
+Proof. vm_compute. repeat split; reflexivity. Qed.
 
 (* the two unbounded columns of an entry, explicitly *)
 Lemma ed_unbounded_eq :
@@ -166,28 +210,32 @@ Qed.
 
 (* an entry that carries an addenda record, in a batch accepted by Batch.isAddendaSequence: the
    only hypothesis left is the one-character CheckDigit *)
-Theorem C02_entry_with_addenda_width r g : In g (subrecords_of "EntryDetail") ->
-  rec_validb (rules_of L_EntryDetail) r = true -> rec_validb (batch_rules_of "EntryDetail") r = true ->
-  (0 < geti r g)%Z -> utf8b L_EntryDetail r = true -> rune_count (gets r "CheckDigit") = 1%nat ->
+Theorem C02_entry_with_addenda_width es r g : In g (subrecords_of "EntryDetail") ->
+  batch_entries_valid "EntryDetail" es = true -> In r es -> (0 < geti r g)%Z ->
+  rec_validb (rules_of L_EntryDetail) r = true ->
+  utf8b L_EntryDetail r = true -> rune_count (gets r "CheckDigit") = 1%nat ->
   rune_count (render L_EntryDetail r) = 94%nat.
 Proof.
-  intros Hg Hv Hb Hp Hu Hc. apply (C02_valid_record_width_partial _ r ed_in Hv Hu).
+  intros Hg Hb Hin Hp Hv Hu Hc. apply (C02_valid_record_width_partial _ r ed_in Hv Hu).
   unfold unbounded_fit, unbounded_fitb. rewrite ed_unbounded_eq.
   unfold seg_widthb; cbn [forallb cs_seg cs_w fst snd].
-  rewrite (C02_indicator_with_addenda r g Hg Hb Hp), Hc.
+  rewrite (C02_indicator_with_addenda es r g Hg Hb Hin Hp), Hc.
   rewrite (utf8b_field L_EntryDetail r (SRaw "CheckDigit") "CheckDigit" Hu);
     [reflexivity| cbn; tauto | cbn; tauto].
 Qed.
 
-Theorem C02_iat_entry_width r :
-  rec_validb (rules_of L_IATEntryDetail) r = true -> rec_validb (batch_rules_of "IATEntryDetail") r = true ->
+(* an IAT entry the loop of IATBatch.isAddendaSequence inspects (all of them when the batch has no
+   correction entry, iat_inspected_all) *)
+Theorem C02_iat_entry_width es r :
+  batch_entries_valid "IATEntryDetail" es = true -> In r (batch_inspected "IATEntryDetail" es) ->
+  rec_validb (rules_of L_IATEntryDetail) r = true ->
   utf8b L_IATEntryDetail r = true -> rune_count (gets r "CheckDigit") = 1%nat ->
   rune_count (render L_IATEntryDetail r) = 94%nat.
 Proof.
-  intros Hv Hb Hu Hc. apply (C02_valid_record_width_partial _ r iat_in Hv Hu).
+  intros Hb Hin Hv Hu Hc. apply (C02_valid_record_width_partial _ r iat_in Hv Hu).
   unfold unbounded_fit, unbounded_fitb. rewrite iat_unbounded_eq.
   unfold seg_widthb; cbn [forallb cs_seg cs_w fst snd].
-  rewrite (C02_indicator_iat r Hb), Hc.
+  rewrite (C02_indicator_iat es r Hb Hin), Hc.
   rewrite (utf8b_field L_IATEntryDetail r (SRaw "CheckDigit") "CheckDigit" Hu);
     [reflexivity| cbn; tauto | cbn; tauto].
 Qed.
